@@ -274,6 +274,42 @@ func c16Run(r *vkit.Run) {
 		one(c16Input{Now: now, Since: sp(bad), Malformed: "since"}, true)
 		one(c16Input{Now: now, Step: sp(bad), Malformed: "step"}, true)
 	}
+	// (3b) a malformed flag is rejected whichever other flags are present
+	for _, bad := range []string{"abc", "5x", "1h30", "-1h", "6 h"} {
+		for mask := 0; mask < 8; mask++ {
+			mk := func(which string) c16Input {
+				in := c16Input{Now: now, Malformed: which}
+				if mask&1 != 0 && which != "start" {
+					in.Start, in.WantStartNS = sp("1700000000"), ip(1700000000*1e9)
+				}
+				if mask&2 != 0 && which != "end" {
+					in.End, in.WantEndNS = sp("1700003600"), ip(1700003600*1e9)
+				}
+				if mask&4 != 0 && which != "since" {
+					in.Since, in.SinceNS = sp("1h"), int64(time.Hour)
+				}
+				if mask&4 != 0 && which == "since" {
+					in.Step, in.WantStepNS = sp("15s"), ip(int64(15*time.Second))
+				}
+				return in
+			}
+			a := mk("since")
+			a.Since = sp(bad)
+			one(a, true)
+			b := mk("start")
+			b.Start = sp(bad)
+			one(b, true)
+			c := mk("end")
+			c.End = sp(bad)
+			one(c, true)
+			d := mk("step")
+			d.Step = sp(bad)
+			if mask&4 != 0 {
+				d.Since, d.SinceNS = sp("1h"), int64(time.Hour)
+			}
+			one(d, true)
+		}
+	}
 	// (4) an explicit step is strictly positive
 	for _, bad := range []string{"0", "-5", "-0.5", "NaN", "Inf", "-Inf", "0s", "0m", "0.0", "-0"} {
 		one(c16Input{Now: now, Step: sp(bad), Malformed: "step"}, true)
